@@ -329,7 +329,7 @@ func RunCollect(spec Spec) (int, *evidence.Evidence) {
 	schedules := evidence.NewSet()
 	nontrivial := evidence.NewSet()
 	var mu sync.Mutex
-	var failures []*failure
+	var failures, attributed []*failure
 	var infra error
 	var samples []any
 
@@ -450,7 +450,13 @@ func RunCollect(spec Spec) (int, *evidence.Evidence) {
 					tape = rs[v.Run].Tape
 				}
 				mu.Lock()
-				failures = append(failures, &failure{caseIdx: i, p: p, v: v, tape: tape})
+				if spec.KnownMatch != nil && v.Class != "out-of-scope" && spec.KnownMatch(kf, p, v) != "" {
+					// a listed finding: kept for the report, but it must not use up the budget of failures after
+					// which the run stops (one program in eight of C02 is allowed to contain the known shapes)
+					attributed = append(attributed, &failure{caseIdx: i, p: p, v: v, tape: tape})
+				} else {
+					failures = append(failures, &failure{caseIdx: i, p: p, v: v, tape: tape})
+				}
 				mu.Unlock()
 			}
 		}()
@@ -461,6 +467,7 @@ func RunCollect(spec Spec) (int, *evidence.Evidence) {
 		return 2, nil
 	}
 
+	failures = append(failures, attributed...)
 	sort.Slice(failures, func(a, b int) bool { return failures[a].caseIdx < failures[b].caseIdx })
 	violations := 0
 	knownHits := map[string]int{}
